@@ -76,6 +76,8 @@ func c10Gen(r *gen.R) *c10Cfg {
 		if len(cfg.Sets) > 0 && r.P(0.75) {
 			ru.Domain = gen.Pick(r, cfg.Sets).Tag
 			ru.Reverse = r.P(0.3)
+		} else if r.P(0.25) {
+			ru.Reverse = true // 'reverse' negates the domain condition; without one there is nothing to negate, the rule always applies
 		}
 		switch r.Intn(5) {
 		case 0:
@@ -172,9 +174,9 @@ func (cfg *c10Cfg) yaml(dir string, upAddr map[string]string, listenUDP, listenT
 		}
 		if ru.Domain != "" {
 			add("domain: " + ru.Domain)
-			if ru.Reverse {
-				add("reverse: true")
-			}
+		}
+		if ru.Reverse {
+			add("reverse: true")
 		}
 		if ru.Reject > 0 {
 			add(fmt.Sprintf("reject: %d", ru.Reject))
